@@ -1,5 +1,6 @@
 import SlotVerif.Driver.SlotMapDrv
 import SlotVerif.Driver.SlotDrv
+import SlotVerif.Driver.ShapeDrv
 /-! `svdriver`: reads one case per line `<suite> <body>`, prints one answer line per case. -/
 open SV.Drv
 
@@ -11,6 +12,7 @@ def dispatch (line : String) : String :=
     match suite with
     | "sm" => smRun body
     | "slot" => slotRun body
+    | "shape" => shapeRun body
     | _ => "bad-suite"
   | [] => "bad-line"
 
